@@ -252,4 +252,61 @@ def normWeights (w : List R) : List R := let s := Num.sum w; w.map (· / s)
 def defaultWeights (n : Nat) : List R :=
   Num.ofRat (1 - (2 / 100 : Rat) * ((n : Rat) - 1)) :: List.replicate (n - 1) (Num.ofRat (2 / 100))
 
+/-! ## histories of the probe model (`set_initial_probe` called repeatedly on one `ProbePixelated`)
+
+State of a `from_array` probe model as far as the initial-probe clause is concerned: the requested
+(normalised) `initial_probe_weights` and the stored `initial_probe` stack. -/
+structure ProbeState (R : Type) where
+  weights : List R
+  stack : List (Img R)
+
+/-- elementwise product of two images -/
+def mulImg (a b : Img R) : Img R := List.zipWith (List.zipWith (· * ·)) a b
+
+/-- `set_initial_probe` (array route): `probes = self.initial_probe.clone()`, the random phase ramps
+of `_apply_random_phase_shifts` (an opaque input here: `ramps`, one unit-modulus image per mode, the
+first all ones), `_apply_weights`, result stored as the new `initial_probe`.  The requested weights are
+READ, never written. -/
+def setInitialProbe (meanInt : R) (ramps : List (Img R)) (st : ProbeState R) : ProbeState R :=
+  { st with stack := applyWeights meanInt st.weights (List.zipWith mulImg st.stack ramps) }
+
+/-- any number of (re-)initialisations, each with its own mean intensity and phase ramps -/
+def runProbeHistory (st : ProbeState R) (steps : List (R × List (Img R))) : ProbeState R :=
+  steps.foldl (fun s step => setInitialProbe step.1 step.2 s) st
+
+/-! ## the constraints dictionary (`constraints.py:BaseConstraints`)
+
+`self._constraints = DEFAULT_CONSTRAINTS.copy()`; `add_constraint(key, value)` and the `constraints`
+setter validate the key against `DEFAULT_CONSTRAINTS.keys()` and assign ONE entry; nothing else is
+touched.  Values are opaque (`V`). -/
+abbrev CDict (V : Type) := List (String × V)
+
+/-- `d[k]` (None when absent) -/
+def cget {V : Type} : CDict V → String → Option V
+  | [], _ => none
+  | (k', v) :: rest, k => if k' = k then some v else cget rest k
+
+/-- `d[k] = v` : replace in place, append when absent (Python dict order) -/
+def cset {V : Type} : CDict V → String → V → CDict V
+  | [], k, v => [(k, v)]
+  | (k', v') :: rest, k, v => if k' = k then (k, v) :: rest else (k', v') :: cset rest k v
+
+inductive CErr where
+  | keyError
+  deriving Repr, DecidableEq
+
+/-- `add_constraint(key, value)`: `KeyError` for a key outside `DEFAULT_CONSTRAINTS`, else `_constraints[key] = value` -/
+def addConstraint {V : Type} (allowed : List String) (d : CDict V) (k : String) (v : V) :
+    Except CErr (CDict V) :=
+  if k ∈ allowed then .ok (cset d k v) else .error .keyError
+
+/-- `constraints` setter: `for key, value in c.items(): check; _constraints[key] = value` — entries are
+applied in order, the first invalid key raises and the entries before it stay applied -/
+def setConstraints {V : Type} (allowed : List String) : CDict V → List (String × V) → CDict V × Option CErr
+  | d, [] => (d, none)
+  | d, (k, v) :: rest =>
+      match addConstraint allowed d k v with
+      | .ok d' => setConstraints allowed d' rest
+      | .error e => (d, some e)
+
 end QuantemModel.Constraints
